@@ -283,6 +283,34 @@ def run(ck: Check):
                 continue
             if fd is None or fd - n + 1 > K:
                 ck.violation(dict(clause="rise-drop", detector="HDDMW", side="drop"), dict(what="sustained drop not flagged within the delay bound that holds for the mirrored rise", config=c2, n=n, bound=K, first_alarm=fd))
+    # deterministic additions to the model correspondence (no draw from the generator):
+    # (a) an alarm that is due exactly at the first step after the warm-up (t = min_num_instances), rise and drop, both modes
+    for mn in (30, 20, 12):
+        for ad, aw in ((0.001, 0.005), (0.05, 0.2)):
+            for ts in (False, True):
+                for xs_ in ([0] * (mn // 2) + [1] * (mn - mn // 2 + 2), [1] * (mn // 2) + [0] * (mn - mn // 2 + 2)):
+                    cc = dict(alpha_d=ad, alpha_w=aw, min_num_instances=mn, two_sided_test=ts)
+                    o_, e_, _ = run_impl(A, cc, xs_)
+                    if e_ is None:
+                        cases.append((A, cc, xs_, None))
+                        impl.append(o_)
+                    cw_ = dict(alpha_d=ad, alpha_w=aw, lambda_=0.2, min_num_instances=mn, two_sided_test=ts)
+                    o_, e_, _ = run_impl(W, cw_, xs_)
+                    if e_ is None:
+                        cases.append((W, cw_, xs_, None))
+                        impl.append(o_)
+    ck.count("warmup_boundary_runs", 48)
+    # (b) HDDM-W, two-sided: long runs of ones (the EWMA converges to 1 to the last bit, the decrease cut point stops
+    #     moving at a step that depends on how the EWMA update is rounded), then a drop to 0 / to an intermediate level
+    for lam_, n_ in ((0.05, 674), (0.05, 690), (0.2, 165), (0.2, 200)):
+        for tail in ([0] * 80, [0.59] * (120 if not thorough else 600)):
+            cc = dict(alpha_d=0.001, alpha_w=0.005, lambda_=lam_, min_num_instances=30, two_sided_test=True)
+            xs_ = [1] * n_ + tail
+            o_, e_, _ = run_impl(W, cc, xs_)
+            if e_ is None:
+                cases.append((W, cc, xs_, None))
+                impl.append(o_)
+    ck.count("long_ones_then_drop_runs", 8)
     # correspondence
     models = run_models("C04", cases, shard=60)
     from detectors import corr_compare
